@@ -50,6 +50,8 @@ type splWorld struct {
 	ctx  context.Context
 	fix  []*wire.BlockHeader
 	pool map[string]*wire.BlockHeader
+	// names that stand for a run of headers offered in one step
+	multi map[string][]*wire.BlockHeader
 }
 
 func fab(prev bitcoin.Hash32, nonce uint32) *wire.BlockHeader {
@@ -59,7 +61,7 @@ func fab(prev bitcoin.Hash32, nonce uint32) *wire.BlockHeader {
 }
 
 func newSplWorld(fix []*wire.BlockHeader) *splWorld {
-	w := &splWorld{ctx: logger.ContextWithNoLogger(context.Background()), fix: fix, pool: map[string]*wire.BlockHeader{}}
+	w := &splWorld{ctx: logger.ContextWithNoLogger(context.Background()), fix: fix, pool: map[string]*wire.BlockHeader{}, multi: map[string][]*wire.BlockHeader{}}
 	at := func(h int) *wire.BlockHeader { return fix[h-556000] }
 	w.pool["m3"] = at(splitHeight - 3)
 	w.pool["m2"] = at(splitHeight - 2)
@@ -81,6 +83,11 @@ func newSplWorld(fix []*wire.BlockHeader) *splWorld {
 	w.pool["h1"] = fab(*w.pool["h2"].BlockHash(), 113)
 	w.pool["h1"].Bits = 0x1700ffff
 	w.pool["h0"] = fab(*w.pool["h1"].BlockHash(), 111)
+	// "adv": the real headers 556770 .. 556919, offered in one step
+	for h := splitHeight + 3; h < splitHeight+153; h++ {
+		w.multi["adv"] = append(w.multi["adv"], at(h))
+	}
+	w.pool["adv"] = at(splitHeight + 3)
 	w.pool["late"] = fab(*at(splitHeight + 1).BlockHash(), 107)
 	var nowhere bitcoin.Hash32
 	nowhere[3] = 0x77
@@ -208,7 +215,17 @@ func splMain(args []string) int {
 					}
 					continue
 				}
-				got := hdrClassify(repo.ProcessHeader(w.ctx, w.pool[o.B]))
+				var perr error
+				if hs, many := w.multi[o.B]; many {
+					for _, h := range hs {
+						if perr = repo.ProcessHeader(w.ctx, h); perr != nil {
+							break
+						}
+					}
+				} else {
+					perr = repo.ProcessHeader(w.ctx, w.pool[o.B])
+				}
+				got := hdrClassify(perr)
 				if got != wantClass(o.Verdict) {
 					if len(divs) < 50 {
 						divs = append(divs, div{Beh: idx, Step: step, Mode: mode, Line: line,
